@@ -825,7 +825,7 @@ int bignum_getbit(bn_t a, int pos)
 
 	d_pos = pos / (sizeof(DTYPE) * 8);
 	bit_pos = pos % (sizeof(DTYPE) * 8);
-	return !!(a.array[d_pos] & (1 << bit_pos));
+	return !!(a.array[d_pos] & ((DTYPE)1 << bit_pos));
 
 }
 
